@@ -482,10 +482,11 @@ const (
 	c06PatAbsentByz        // one absent AND one (<1/3) stamps before the block — the minimal commit with one faulty member
 	c06PatByzFuture        // one member with <1/3 power stamps far in the future
 	c06PatStale            // everybody stamps before the block (not a behaviour of >2/3 correct validators)
+	c06PatAbsentBig        // the highest-power member whose absence still leaves >2/3 is absent; timestamps increasing in slot order
 	c06NPatterns
 )
 
-var c06PatNames = []string{"all", "absent-rev", "nil-equal", "byz-early", "absent+byz-early", "byz-future", "stale"}
+var c06PatNames = []string{"all", "absent-rev", "nil-equal", "byz-early", "absent+byz-early", "byz-future", "stale", "absent-big"}
 
 // makeCommit signs a commit for (height, blockID) by the set `vals` (the validators of that height).
 // It returns the commit and whether the pattern is "benign": faulty timestamps come from <1/3 power
@@ -548,6 +549,13 @@ func (w *c06World) makeCommit(pat int, h int64, bid types.BlockID, blockTime tim
 	case c06PatByzFuture:
 		if n > 1 && minority(last) {
 			spec[last].ts = blockTime.Add(1000 * time.Hour)
+		}
+	case c06PatAbsentBig:
+		for i := 0; i < n; i++ {
+			if n > 1 && remainsOK(i) {
+				spec[i] = c06SlotSpec{kind: c06SlotAbsent}
+				break
+			}
 		}
 	case c06PatStale:
 		for i := range spec {
